@@ -34,6 +34,9 @@ def authAsked (s : Scn) : Bool :=
 /-- the authorization flow decided the outcome: the first answer asked for authorization and no retry was made -/
 def firstOnly (s : Scn) (posts : Nat) : Bool := decide (posts ≤ 1) && authAsked s
 
+/-- nothing was sent -/
+def unsent (posts : Nat) : Bool := decide (posts = 0)
+
 /-- this answer is the server's real response to the call / the acceptance of the notification -/
 def acceptedAns (k : Kind) : Ans → Bool
   | .ok p true =>
@@ -44,11 +47,18 @@ def acceptedAns (k : Kind) : Ans → Bool
 
 /-- this answer refuses the message on its own (the error wraps ErrRejected; nothing is wrong with the connection):
 a transport error, the caller's context ending while the POST is in flight, a JSON-RPC error body, a transient status -/
-def rejectionAns (cancel : Bool) : Ans → Bool
+def rejectionAns (cancel : Bool) (k : Kind) : Ans → Bool
   | .terr => true
   | .hang => cancel
   | .st c rpc => rpc || isTransient c
+  | .ok .jsonHang true => cancel && k == .call   -- abandoned by the caller while the body was in flight
   | .ok _ _ => false
+
+/-- this answer leaves the request waiting: no headers, or (a call) a JSON body that does not come -/
+def waitingAns (k : Kind) : Ans → Bool
+  | .hang => true
+  | .ok .jsonHang true => k == .call
+  | _ => false
 
 /-- this answer says that the session is gone -/
 def goneAns : Ans → Bool
@@ -56,18 +66,19 @@ def goneAns : Ans → Bool
   | _ => false
 
 /-- the server's real response to the call / the acceptance of the notification came back on the last POST -/
-def accepted (s : Scn) (posts : Nat) : Bool := !firstOnly s posts && acceptedAns s.kind (lastAns s posts)
+def accepted (s : Scn) (posts : Nat) : Bool := !unsent posts && !firstOnly s posts && acceptedAns s.kind (lastAns s posts)
 
 /-- something is still pending and nothing has ended it: the last POST is unanswered, or the authorization runs -/
 def pending (s : Scn) (posts : Nat) : Bool :=
-  !s.cancel && (if firstOnly s posts then s.auth == .block else lastAns s posts == .hang)
+  !unsent posts && !s.cancel && (if firstOnly s posts then s.auth == .block else waitingAns s.kind (lastAns s posts))
 
 /-- the message was refused on its own: authorization denied, or a rejecting answer to the last POST -/
 def rejection (s : Scn) (posts : Nat) : Bool :=
-  if firstOnly s posts then s.auth == .deny else rejectionAns s.cancel (lastAns s posts)
+  if unsent posts then tsFails s
+  else if firstOnly s posts then s.auth == .deny else rejectionAns s.cancel s.kind (lastAns s posts)
 
 /-- the server said that the session is gone -/
-def sessionGone (s : Scn) (posts : Nat) : Bool := !firstOnly s posts && goneAns (lastAns s posts)
+def sessionGone (s : Scn) (posts : Nat) : Bool := !unsent posts && !firstOnly s posts && goneAns (lastAns s posts)
 
 /-! ### the property, clause by clause -/
 
@@ -80,9 +91,10 @@ def POwn (s : Scn) (o : Obs) : Prop := (o.end_ = .result ∨ o.end_ = .done) →
 /-- …and then the request completes with it (result for a call, nil for a notification) -/
 def PNotLost (s : Scn) (o : Obs) : Prop :=
   accepted s o.posts = true → (o.end_ = if s.kind = .call then .result else .done)
-/-- the message is sent once; once more only after a 401/403 and a granted authorization -/
+/-- the message is sent once — not at all exactly when the token source fails; once more only after a 401/403 and a
+granted authorization -/
 def PSent (s : Scn) (o : Obs) : Prop :=
-  1 ≤ o.posts ∧ o.posts ≤ 2 ∧ (o.posts = 2 → authAsked s = true ∧ s.auth = .grant)
+  (o.posts = 0 ↔ tsFails s = true) ∧ o.posts ≤ 2 ∧ (o.posts = 2 → authAsked s = true ∧ s.auth = .grant)
 /-- the user is asked to authorize at most once, and only for a 401/403 (#882: not again for a request already abandoned) -/
 def PAuth (s : Scn) (o : Obs) : Prop := o.auths ≤ 1 ∧ (o.auths = 1 → authAsked s = true)
 /-- a per-message rejection, or a completed request, leaves the connection usable -/
